@@ -311,6 +311,27 @@ CHECKS = {
     ),
 }
 
+# Families added in rounds 15-16 (appended to the coverage text of the check)
+ADDENDA = {
+    "C01": " The alphabet also has members of the expected name but another JSON type (textDocument null / string / list / number, position a string) and a request whose params are nested 1500 levels deep; output is attributed to a message from the moment it starts being read.",
+    "C02": " Family e2e_didopen: the document as carried by didOpen (same text on disk, no file on disk, another text on disk, re-opened) x 6 documents x ranged / whole-document sync x one change, and a notification with two whole-document changes.",
+    "C04": " Family sessions: a module and a submodule with 'module procedure' implementations in two files; the interfaces arrive in / leave the parent's file while outlines are asked before or not; outlines must equal a fresh server's.",
+    "C05": " Families continued_decl (declared name on a continuation line with / without the leading '&' at three indents) and host_only (a restricted inner USE of a module the host accesses freely: 3 inner scope kinds x 3 inner ONLY forms x 2 host forms x variable / type + component).",
+    "C06": " Shapes across files: a procedure declared by an interface body in a module, a 'module subroutine/function' interface with its implementation in a submodule, and dummy arguments of a separate module procedure, each asked from every occurrence in every file.",
+    "C07": " Family interface_import: a host type named in an interface body of an unnamed / abstract / named generic interface block x module / program host x 5 IMPORT forms x TYPE / CLASS.",
+    "C08": " Families directive_forms (all sequences of <= 4/5 directives over redefinition without #undef and backslash-continued #define / #undef / #if / #elif), include_paths (8 spellings of header paths with directories x 3 writings x 3 regions, singly and in pairs) and redefinition inside headers; all cross-checked with GNU cpp.",
+    "C09": " The text edits and diagnostics of code actions are range-checked too; families code_actions (deferred binding unimplemented, module tail inline or from an INCLUDE file with 0-12 leading lines) and diag_statement (parse-time diagnostics of statements continued over two lines, LF / CRLF).",
+    "C10": " Workspaces W11-W13 (type-bound procedure whose implementation is renamed in another file; user module shadowing an intrinsic module; implementation of a module-procedure interface removed from the submodule); the battery also asks textDocument/implementation.",
+    "C11": " Families procedure_forms (prefixes PURE / ELEMENTAL / RECURSIVE / IMPURE x typed FUNCTION statements x RESULT x dummies declared out of order or jointly x documentation before / after / trailing), type_statements (attribute sets of TYPE statements) and edge_docs (documentation ending the file, documentation inside inactive preprocessor branches).",
+    "C12": " Also a constructs program (BLOCK locals, ASSOCIATE names, depth-3 member chains, array-element chains, blanks around '%', DO / IF / PRINT statements) and nested_only: all sequences of <= 3 requests over three procedures of a host that name one module with different ONLY lists.",
+    "C13": " Family session_layout: every corpus program re-laid-out on disk at its edges (blank / comment lines before the first or after the last statement, no final break, CRLF) while the server holds it x didSave / didOpen / didOpen+didClose, outline compared with a fresh server's.",
+    "C14": " Further fixed-form renderings: a zero in column 6 of initial lines, continuation text glued to the mark (also on the first line of the file), trailing '!' comments naming the statement's entities on plain and on continued lines (one and two continuation breaks).",
+    "C16": " Header spellings 'content-length: N', 'Content-Length:N' and 'CONTENT-LENGTH:  N' after Content-Type are part of the reader family.",
+    "C17": " Payloads with shell syntax ($(...), back-ticks, ${X:-...}) at the configured path options of file and command line; the debug log's path occupied by a symbolic link to a file outside the workspace.",
+    "C18": " The tree has directory names that are not their own glob pattern (run[1] next to run1); family root_naming (root named pr[1] / pr? / p*r with decoy siblings, root reached through a symbolic link) x a reduced settings product; excl_paths '.' and the root's absolute path.",
+    "C19": " Faults too_deep / too_deep_value (valid JSON nested beyond the reader), every syntactic fault under each default file name (the message must name the file read), pp_defs given as list / number / string on both channels.",
+}
+
 NOT_YET = "check not built yet in this revision of /verif (planned, see DESIGN.md §4)"
 
 
@@ -327,7 +348,7 @@ def main():
             "evidence_file": f"/verif/evidence/{pid}.json",
             "replay_cmd_template": f"./run {pid} --replay {{path}}",
             "engine": "vf",
-            "level_claimed": {"category": c["category"], "text": c["text"], "design_ref": c["design"]},
+            "level_claimed": {"category": c["category"], "text": c["text"] + ADDENDA.get(pid, ""), "design_ref": c["design"]},
             "level_note": c["note"],
             "technique": c["technique"],
         })
